@@ -107,40 +107,60 @@ func checkC06(c *Ctx) {
 				}
 				nf++
 				tn, fld, _ := fieldOf(fa)
-				for _, ref := range referrersOf(fa) {
-					esc := false
-					switch u := ref.(type) {
-					case *ssa.Store:
-						esc = u.Val == ssa.Value(fa)
-					case *ssa.UnOp, *ssa.DebugRef:
-					case ssa.CallInstruction:
-						cc := u.Common()
-						callee := staticCallee(u)
-						isRecv := callee != nil && callee.Signature.Recv() != nil && isLinePtr(callee.Signature.Recv().Type()) && len(cc.Args) > 0 && cc.Args[0] == ssa.Value(fa)
-						if !isRecv {
-							// passing it to an in-repo function whose parameter is only read is not an escape
-							esc = true
-							if callee != nil && inRepo(callee) {
-								esc = false
-								for ai, a := range cc.Args {
-									if a == ssa.Value(fa) && !paramOnlyRead(callee, ai) {
+				// uses of the address, also through a local pointer variable (a phi merging it with other line pointers)
+				var escapes func(v ssa.Value, depth int) ssa.Instruction
+				escapes = func(v ssa.Value, depth int) ssa.Instruction {
+					for _, ref := range referrersOf(v) {
+						esc := false
+						switch u := ref.(type) {
+						case *ssa.Store:
+							esc = u.Val == v
+						case *ssa.UnOp, *ssa.DebugRef:
+						case *ssa.Phi:
+							if depth < 2 {
+								if w := escapes(u, depth+1); w != nil {
+									return w
+								}
+							} else {
+								esc = true
+							}
+						case ssa.CallInstruction:
+							cc := u.Common()
+							callee := staticCallee(u)
+							isRecv := callee != nil && callee.Signature.Recv() != nil && isLinePtr(callee.Signature.Recv().Type()) && len(cc.Args) > 0 && cc.Args[0] == v
+							if !isRecv {
+								// passing it to an in-repo function whose parameter is only read is not an escape
+								esc = true
+								if callee != nil && inRepo(callee) {
+									esc = false
+									for ai, a := range cc.Args {
+										if a == v && !paramOnlyRead(callee, ai) {
+											esc = true
+										}
+									}
+								}
+							} else {
+								// a method of Line called on it: only the read-only ones are harmless through a merged pointer
+								if v != ssa.Value(fa) && !paramOnlyRead(callee, 0) {
+									esc = true
+								}
+								for _, a := range cc.Args[1:] {
+									if a == v {
 										esc = true
 									}
 								}
 							}
-						} else {
-							for _, a := range cc.Args[1:] {
-								if a == ssa.Value(fa) {
-									esc = true
-								}
-							}
+						default:
+							esc = true
 						}
-					default:
-						esc = true
+						if esc {
+							return ref
+						}
 					}
-					if esc {
-						r.Bad("C06.line-fields", fmt.Sprintf("%s:&%s.%s", fnName(f), tn, fld), p.IPos(ref), "the address of a by-value Line field escapes: it may become an edit buffer written outside the inventory")
-					}
+					return nil
+				}
+				if ref := escapes(fa, 0); ref != nil {
+					r.Bad("C06.line-fields", fmt.Sprintf("%s:&%s.%s", fnName(f), tn, fld), p.IPos(ref), "the address of a by-value Line field escapes: it may become an edit buffer written outside the inventory")
 				}
 			})
 		}
